@@ -13,7 +13,12 @@ PROP = {
                   "handleDNSRequest (and, in TestVFC01Wire, over real UDP/TCP sockets through dnsproxy). Both "
                   "directions are asserted: blocked => no upstream question at all, no upstream data, the "
                   "blocking-mode response table (A/AAAA exact, other qtypes validity); not blocked => exactly one "
-                  "upstream question and the upstream answer, question, id and rcode intact. Exploration level: "
+                  "upstream question and the upstream answer, question, id and rcode intact. TestVFC01Runtime "
+                  "additionally changes the configuration of a running server through the admin API between query "
+                  "phases (lists switched off and on again with unchanged contents, set_rules, filtering/config, "
+                  "protection on/off/pause, blocking mode, blocked services) and checks every phase against the model "
+                  "of the configuration then in force; since the engines are rebuilt in the background a deviating "
+                  "outcome is retried for 4 s before it counts. Exploration level: "
                   "thousands of configurations, no absence claim.",
     "level_note": "Rule-matching semantics of urlfilter are trusted (fresh engines built by the harness give the "
                   "reference verdict; for the core grammar an independent matcher written from the documented syntax "
